@@ -2,7 +2,7 @@
 from engine.driver import Cond, Run, source_fingerprint
 from checks.C07 import FILES, ENCODED
 
-PROGS_Q = [1, 2, 17, 21, 22, 27, 33, 37]
+PROGS_Q = [2, 21, 33, 37]  # sized for the 900 s budget of the per-change run (vp check feedback: 8 programs were too slow); the rest run in the thorough tier
 PROGS_T = list(range(38))
 
 
